@@ -1252,8 +1252,15 @@ impl<'a> Ev<'a> {
                             },
                             (Sub(_), Val::Int(a), Val::Int(c)) => Val::Int(a - c),
                             (Add(_), Val::Int(a), Val::Int(c)) => Val::Int(a + c),
-                            (Gt(_), _, Val::Int(k)) => Val::Atom(F::A(format!("{}>{k}", l.short()))),
-                            (Lt(_), _, Val::Int(k)) => Val::Atom(F::A(format!("{}<{k}", l.short()))),
+                            (Gt(_), Val::Int(a), Val::Int(c)) => Val::Bool(a > c),
+                            (Lt(_), Val::Int(a), Val::Int(c)) => Val::Bool(a < c),
+                            (Ge(_), Val::Int(a), Val::Int(c)) => Val::Bool(a >= c),
+                            (Le(_), Val::Int(a), Val::Int(c)) => Val::Bool(a <= c),
+                            // symbolic sizes: normalised to `X<=k` atoms
+                            (Gt(_), _, Val::Int(k)) => Val::Atom(F::Not(Box::new(F::A(format!("{}<={k}", l.short()))))),
+                            (Lt(_), _, Val::Int(k)) => Val::Atom(F::A(format!("{}<={}", l.short(), k - 1))),
+                            (Ge(_), _, Val::Int(k)) => Val::Atom(F::Not(Box::new(F::A(format!("{}<={}", l.short(), k - 1))))),
+                            (Le(_), _, Val::Int(k)) => Val::Atom(F::A(format!("{}<={k}", l.short()))),
                             _ => Val::opaque(format!("binop {}", b.op.to_token_stream()), vec![l.clone(), r.clone()]),
                         };
                         vec![(s2, Flow::Val(v))]
@@ -1702,6 +1709,7 @@ impl<'a> Ev<'a> {
             ("enumerate", Val::Sym { .. }) => Val::opaque("enumerate", vec![rv.clone()]),
             ("len", Val::Array(vs)) => Val::Int(vs.len() as i128),
             ("len", Val::List(vs)) if !vs.iter().any(|x| matches!(x, Val::Rep { .. })) => Val::Int(vs.len() as i128),
+            ("len", Val::List(vs)) if vs.len() == 1 && matches!(&vs[0], Val::Rep { .. }) => { let Val::Rep { coll, .. } = &vs[0] else { unreachable!() }; Val::opaque(format!("len({coll})"), vec![]) }
             ("is_empty", Val::Array(vs)) => Val::Bool(vs.is_empty()),
             ("len", Val::Str(x)) => Val::Int(x.len() as i128),
             ("strip_suffix", Val::Str(x)) if matches!(args.first(), Some(Val::Str(_))) => { let Some(Val::Str(sfx)) = args.first() else { unreachable!() }; match x.strip_suffix(sfx.as_str()) { Some(r) => Val::some(Val::Str(r.to_string())), None => Val::none() } }
